@@ -1,6 +1,7 @@
 """C11 - every MDIB lookup always agrees with a scan of the stored objects.
 
 spec:   specs/MultiKey.tla  (operational table model, invariant Agree, action property RejectIsNoop)
+         specs/Mdib.tla + MdibTrace.tla / MirrorTrace.tla for the tables inside a provider / consumer MDIB
 binding: TLC behaviours (exhaustive tree of depth D + simulation) are replayed on the real
          MultiKeyLookup (generic table) and on the real MDIB tables (DescriptorsLookup, StatesLookup,
          MultiStatesLookup) holding real containers; the complete table projection after each call is
@@ -320,6 +321,17 @@ def check(run, replay_path=None):
             run.violation(descr, f'{kind} table: {rec["act"]}({rec.get("o")}) -> {rec["res"]}: clause {clause} fails',
                           {'table': kind, 'behaviour': behs[ti_], 'trace': traces[ti_], 'failing_record': li})
     run.note('per_table', per_table)
+
+    # 3. the tables inside the MDIB: every transaction (provider) and every incoming report (consumer) that changes an
+    #    indexed attribute (parent, Source, ConditionSignaled, handles) - behaviours of Mdib.tla chosen by situation
+    #    cover, replayed on a real ProviderMdib and on a real provider + consumer pair; clauses lookups_agree
+    #    (MdibTrace) and consumer_lookups_agree (MirrorTrace)
+    from verif.checks import mdibcommon, mirrorcommon
+    # (covered: the situations of descriptor transactions - they change indexed attributes - and of kept entities)
+    mdibcommon.run_family(run, 'C11', with_model=False, lifecycle=False, num=run.pick(100, 3000), fold=1,
+                          prefixes=('D:', 'K:', 'T:descriptor'))
+    mirrorcommon.run_family(run, 'C11', run.pick(40, 1500), [dict(), dict(async_mgr=True)], seed_offset=7,
+                            prefixes=('D:',))
     for name in os.listdir(SPEC_DIR):
         if name.startswith('_gen_mk_'):
             os.remove(os.path.join(SPEC_DIR, name))
